@@ -78,8 +78,8 @@ def timer_table(ctx):
     return table
 
 
-def rule_table(ctx):
-    ctx.rule("C17.1-timer-table")
+def rule_table(ctx, rule_id="C17.1-timer-table"):
+    ctx.rule(rule_id)
     t = timer_table(ctx)
     ctx._timers = t
     for attr, (handler, delay) in EXPECTED.items():
@@ -295,6 +295,44 @@ def rule_reasons(ctx):
         ctx.ob(f"{handler}: reports its own reason ('{key}')", ok, "reason string not set before the drop / does not name this timeout", h.loc(c))
 
 
+def rule_open_timeout_states(ctx):
+    """"If the peer does not complete the opening handshake ... the connection is dropped no later than that deadline": the timer's handler, evaluated
+    (sa.core.tiny) in every connection state.  The handshake is incomplete in CONNECTING and -- for a client behind an explicit proxy whose CONNECT
+    has not been answered -- in PROXY_CONNECTING: both must be dropped and reported unclean; in OPEN / CLOSING / CLOSED the handler does nothing."""
+    from ..core.tiny import Tiny, Sym
+    ctx.rule("C17.7-open-timeout-in-every-state")
+    cls = ctx.program.cls(WSP)
+    h = cls.methods["onOpenHandshakeTimeout"]
+    ctx.analysed(h)
+    from .common import class_consts
+    consts = class_consts(ctx, cls)
+    ctx.require({"STATE_CONNECTING", "STATE_PROXY_CONNECTING", "STATE_OPEN", "STATE_CLOSING", "STATE_CLOSED"} <= set(consts), f"connection states not found: {sorted(consts)[:12]}")
+    body = [x for x in h.node.body if not (isinstance(x, ast.Expr) and isinstance(x.value, ast.Constant))]
+    probs = []
+    try:
+        for nm in ("STATE_CONNECTING", "STATE_PROXY_CONNECTING", "STATE_OPEN", "STATE_CLOSING", "STATE_CLOSED"):
+            drops = []
+            env = {"self": Sym("protocol"), "self.state": consts[nm], "self.log": Sym("log"), "self.wasClean": None, "self.wasNotCleanReason": None, "self.wasOpenHandshakeTimeout": False,
+                   "self.openHandshakeTimeoutCall": Sym("timer"), "WebSocketProtocol": Sym("class WebSocketProtocol", **consts)}
+            env.update({f"WebSocketProtocol.{k_}": v_ for k_, v_ in consts.items()})
+            t = Tiny(env, default_call=lambda f_, a_, k_=None: (drops.append(dict(k_ or {}, _args=list(a_))) if f_ == "self.dropConnection" else None) or Sym(f"<{f_}>"), opaque_globals=True,
+                     model_strings=True)
+            r = t.run(body)
+            get = lambda a_: t.env.get(f"self.{a_}", t.env["self"].attrs.get(a_))
+            pending = nm in ("STATE_CONNECTING", "STATE_PROXY_CONNECTING")
+            if r[0] == "raise":
+                probs.append(f"{nm}: the handler raises {r[1]}")
+            elif pending and not (len(drops) == 1 and (drops[0].get("abort") is True or drops[0]["_args"][:1] == [True]) and get("wasClean") is False and get("wasNotCleanReason")):
+                probs.append(f"{nm}: handshake not completed but the connection is {'dropped %d time(s)' % len(drops) if drops else 'not dropped'} "
+                             f"(wasClean={get('wasClean')}, reason={get('wasNotCleanReason')!r}); expected one abortive drop, reported unclean with the timeout as reason")
+            elif not pending and drops:
+                probs.append(f"{nm}: the handler drops a connection whose opening handshake is over")
+    except AnalysisError as e:
+        raise AnalysisError(f"[C17.7-open-timeout-in-every-state] onOpenHandshakeTimeout outside the modelled subset: {e}")
+    ctx.ob("onOpenHandshakeTimeout: drops (abortive, unclean, own reason) exactly while the opening handshake is incomplete -- CONNECTING and PROXY_CONNECTING [5 cells]",
+           not probs, "; ".join(probs[:2]), h.loc())
+
+
 def rule_ping_cycle(ctx):
     """"automatic pings keep being sent at the configured interval for as long as the connection is open": the ping cycle is a small state
     machine over (ping scheduled, ping outstanding, pong timeout armed).  Every transition of it -- the ping timer firing, the matching pong
@@ -383,6 +421,7 @@ def rule_ping_cycle(ctx):
 
 
 def run(ctx):
+    rule_open_timeout_states(ctx)
     rule_ping_cycle(ctx)
     rule_table(ctx)
     rule_arm(ctx)
